@@ -964,8 +964,25 @@ def check_json_family(run, prop, replay=None):
     def json_sig(ctx):
         # D28: an allOf $ref member that itself declares additionalProperties
         for l in ctx:
-            if l.startswith("J ") and re.search(r"E:o\([^()]*(\([^()]*\)[^()]*)*\|[^-)]", l):
-                return "embedded_member_with_additional_properties"
+            if not l.startswith("J "):
+                continue
+            k = l.find("E:o(")
+            while k >= 0:
+                # the matching parenthesis of this embedded object; its additionalProperties part follows the last top-level '|'
+                depth, j, bar = 0, k + 3, -1
+                while j < len(l):
+                    if l[j] == "(":
+                        depth += 1
+                    elif l[j] == ")":
+                        depth -= 1
+                        if depth == 0:
+                            break
+                    elif l[j] == "|" and depth == 1:
+                        bar = j
+                    j += 1
+                if bar >= 0 and l[bar + 1:j] != "-":
+                    return "embedded_member_with_additional_properties"
+                k = l.find("E:o(", k + 1)
         return None
     rest = []
     for t in propm:
